@@ -9,10 +9,6 @@ use std::sync::Mutex;
 
 use json::JsonValue;
 
-mod arith;
-mod core_mode;
-mod util;
-
 static LAST_PANIC: Mutex<String> = Mutex::new(String::new());
 
 fn install_panic_hook() {
@@ -44,18 +40,20 @@ pub fn guarded<F: FnOnce() -> JsonValue>(f: F) -> JsonValue {
     }
 }
 
-type Handler = fn(&JsonValue) -> JsonValue;
+pub type Handler = fn(&JsonValue) -> JsonValue;
 
-fn main() {
+/// Main loop shared by the per-group harness binaries.
+pub fn run_main(modes: &[(&'static str, Handler)]) {
     install_panic_hook();
     let args: Vec<String> = std::env::args().collect();
     if args.len() < 2 {
-        eprintln!("usage: acbh <mode>");
+        eprintln!("usage: acbh_<group> <mode>");
         std::process::exit(2);
     }
     let mut handlers: HashMap<&str, Handler> = HashMap::new();
-    handlers.insert("core", core_mode::handle);
-    handlers.insert("arith", arith::handle);
+    for (n, h) in modes {
+        handlers.insert(n, *h);
+    }
     let h = match handlers.get(args[1].as_str()) {
         Some(h) => *h,
         None => {
